@@ -5,6 +5,7 @@ import (
 	"errors"
 	"github.com/mimecast/dtail/internal/vhook"
 	"strings"
+	"sync/atomic"
 	"time"
 
 	"github.com/mimecast/dtail/internal"
@@ -30,6 +31,10 @@ type Aggregate struct {
 	query *mapr.Query
 	// The mapr log format parser
 	parser logformat.Parser
+	// Number of announced inputs (read commands of the session, lines channels
+	// about to be re-queued) which have not finished yet. As long as there are
+	// any, an empty NextLinesCh does not mean that there is no more input.
+	pending int32
 }
 
 // NewAggregate return a new server side aggregator.
@@ -78,6 +83,19 @@ func NewAggregate(queryStr string) (*Aggregate, error) {
 	}, nil
 }
 
+// Expect announces more input: a read command of the session has been received
+// and will register its lines channel(s) via NextLinesCh, maybe only after it
+// has waited for a free read slot. Every Expect must be followed by a Done.
+func (a *Aggregate) Expect() {
+	atomic.AddInt32(&a.pending, 1)
+}
+
+// Done tells that an input announced via Expect has finished, all the lines
+// channels it registered are closed by now.
+func (a *Aggregate) Done() {
+	atomic.AddInt32(&a.pending, -1)
+}
+
 // Shutdown the aggregation engine.
 func (a *Aggregate) Shutdown() {
 	a.done.Shutdown()
@@ -124,14 +142,19 @@ func (a *Aggregate) nextLine() (line *line.Line, ok bool, noMoreChannels bool) {
 	select {
 	case line, ok = <-a.linesCh:
 		if !ok {
-			// Channel is closed, go to next channel.
+			// Channel is closed, go to next channel. Whether more input has been
+			// announced must be looked up before NextLinesCh is: an input is only
+			// done after all its channels have been registered.
+			pending := atomic.LoadInt32(&a.pending)
 			vhook.Point("mapr.agg.closed", vhook.ID(a))
 			select {
 			case a.linesCh = <-a.NextLinesCh:
 				vhook.Point("mapr.agg.take", vhook.ID(a))
 			default:
-				noMoreChannels = true
-				vhook.Point("mapr.agg.nomore", vhook.ID(a))
+				if pending == 0 {
+					noMoreChannels = true
+					vhook.Point("mapr.agg.nomore", vhook.ID(a))
+				}
 			}
 		}
 	default:
@@ -140,7 +163,11 @@ func (a *Aggregate) nextLine() (line *line.Line, ok bool, noMoreChannels bool) {
 		case newLinesCh := <-a.NextLinesCh:
 			oldLinesCh := a.linesCh
 			vhook.Point("mapr.agg.requeue", vhook.ID(a))
-			go func() { a.NextLinesCh <- oldLinesCh }()
+			a.Expect()
+			go func() {
+				a.NextLinesCh <- oldLinesCh
+				a.Done()
+			}()
 			a.linesCh = newLinesCh
 		default:
 			// No new lines channel found.
